@@ -1,0 +1,59 @@
+//go:build verif
+
+// Contracts for package html, checked by /verif (govc). Comment-only.
+// The HTML text itself comes out of html/template at run time (C06 is not applicable to this technique);
+// what is under contract here is the wrapper: totality, error reporting, and the per-wrapper template state.
+
+package html
+
+//@ spec htab(ht *HTMLTable) *tabular.ATable = ht.Table.(*tabular.ATable)
+
+//@ func Wrap
+//@   tags C10,C14,C16,C09
+//@   assigns new(HTMLTable)
+//@   ensures result != nil && fresh(result) && result.Table === t && result.template == nil && result.rowClassGenerator == nil
+
+//@ func New
+//@   tags C10,C09
+//@   ensures result != nil && fresh(result) && dyn(result.Table) == type[*tabular.ATable] && WF(result.Table.(*tabular.ATable))
+
+//@ func (*HTMLTable).SetRowClassGenerator
+//@   tags C14,C09
+//@   requires ht != nil
+//@   assigns ht.rowClassGenerator, ht.rowClassCtx
+//@   ensures result == ht
+
+//@ func cellsToStringArray
+//@   tags C09,C14
+//@   requires forall i int :: {&cells[i]} 0 <= i && i < len(cells) ==> !cells[i].mustCalc
+//@   assigns new(string)
+//@   ensures [one-string-per-cell] len(result) == len(cells) && fresh(result) @C09
+//@   ensures [cell-text-as-is] forall i int :: {result[i]} 0 <= i && i < len(result) ==> result[i] == cells[i].str @C14
+//@   loop#1 invariant -1 <= rangeindex && rangeindex < len(cells) && len(r) == len(cells) && fresh(r)
+//@   loop#1 invariant forall i int :: {r[i]} 0 <= i && i <= rangeindex ==> r[i] == cells[i].str
+//@   loop#1 decreases len(cells) - rangeindex
+
+//@ -- getFuncs builds closures over ht (function values are outside the verified subset): ASSUMED to return a
+//@ -- fresh function map, numbered by the ghost counter funcsGen
+//@ func (*HTMLTable).getFuncs
+//@   trusted
+//@   tags C14
+//@   requires ht != nil
+//@   assigns ghost funcsGen, ghost funcsId
+//@   ensures funcsGen == old(funcsGen) + 1 && funcsId === store(old(funcsId), result, funcsGen)
+
+//@ func (*HTMLTable).RenderTo
+//@   tags C09,C14,C15,C16
+//@   requires ht != nil && tbl(ht.Table)
+//@   requires [writer-ok] !Wfailed
+//@   ensures [table-still-wellformed] tbl(ht.Table) @C09,C14
+//@   ensures [failing-writer-surfaces] Wfailed ==> err != nil @C15
+//@   ensures [template-stays-on-the-wrapper] err == nil ==> ht.template != nil @C16
+//@   call Execute before assert [function-map-rebound-on-every-render] funcsGen > old(funcsGen) && tplBound[ht.template] == funcsGen @C14
+
+//@ func (*HTMLTable).Render
+//@   tags C09,C10,C15
+//@   requires ht != nil && tbl(ht.Table)
+//@   ensures [error-means-no-text] result1 != nil ==> result0 == "" @C09
+//@   ensures [table-still-wellformed] tbl(ht.Table)
+//@   call RenderTo before ghost Wfailed = false
